@@ -327,7 +327,13 @@ func decodeMSMBothWays(frame []byte, msm7 bool, lvl slog.Level) (direct *decoded
 type msmCase struct {
 	M    *ref.MSM `json:"msm"`
 	Pads []int    `json:"pads"`
+	// Lvl is the log level handed to the decoders (slog numbering: 0 Info, -4 Debug,
+	// -8 a trace level below Debug, 4 Warn, 8 Error, 12 above Error).  What is decoded
+	// does not depend on how much is logged.
+	Lvl int `json:"lvl,omitempty"`
 }
+
+var c04Levels = []int{0, -4, -8, 4, 8, 12, -12}
 
 // c04PrevByFamily keeps, per decoder family, the previous message's description and
 // decoded result: decoding the next message of that family must not change it.
@@ -380,8 +386,11 @@ func execC04(c *child.Ctx, k msmCase, cj []byte) {
 					errText = fmt.Sprintf("panic: %v", r)
 				}
 			}()
-			direct, via, errText = decodeMSMBothWays(frame, msm7, slog.LevelInfo)
+			direct, via, errText = decodeMSMBothWays(frame, msm7, slog.Level(k.Lvl))
 		}()
+		if k.Lvl != 0 {
+			c.Count("decodes_at_another_log_level", 1)
+		}
 		if errText != "" {
 			c.Violate("well-formed-rejected", fmt.Sprintf("well-formed type %d message with %d padding bytes: %s", m.Type, pad, errText), cj)
 			return
@@ -755,6 +764,9 @@ func monC04(c *child.Ctx, replay json.RawMessage) {
 			pads = append(pads, p)
 		}
 		k := msmCase{M: m, Pads: pads}
+		if i%3 == 1 {
+			k.Lvl = c04Levels[(i/3)%len(c04Levels)]
+		}
 		cj := c.BeginV(k)
 		execC04(c, k, cj)
 		zeroField := false
